@@ -3,18 +3,8 @@ package rules
 import (
 	"encoding/json"
 	"fmt"
-	"go/ast"
-	"go/constant"
-	"go/token"
-	"go/types"
 	"os"
 	"path/filepath"
-	"reflect"
-	"sort"
-	"strings"
-
-	"golang.org/x/tools/go/cfg"
-	"golang.org/x/tools/go/packages"
 
 	"osmcheck/core"
 )
@@ -23,33 +13,45 @@ import (
 //
 // Anchors: exported API (*Way).Polygon, (*Relation).Polygon, Tags.Find, Way.Nodes, WayNode.ID, Way.Tags.
 // Everything else is resolved by role:
-//   - the conditions table   = the package-level slice variable (*Way).Polygon ranges over;
-//   - its key/condition/values fields = the struct fields whose JSON names are key/polygon/values
-//     (the names of the published file format);
+//   - the conditions table   = the one package-level slice of structs whose fields carry the JSON
+//     names key/polygon/values (the names of the published file format);
+//   - the rule loop          = whatever loop iterates that table (range, or the canonical index loop)
+//     in (*Way).Polygon or in any function of the package it calls, found by evaluating the code;
 //   - the embedded literal   = the constant behind the first argument of the json.Unmarshal call
-//     whose second argument is &table;
+//     whose second argument is &table (directly, or through the parameters of a wrapping helper);
 //   - the condition values   = package-level constants/variables of the condition field's type.
-// No unexported identifier is matched by name.
+// No unexported identifier is matched by name, no file name is used, and no verdict depends on the
+// statement shape: the decision procedures are *executed* on abstract inputs (c18_interp.go ...),
+// the init ordering is a path-insensitive must-analysis that follows calls (c18_init.go, c18_flow.go),
+// and the read-only rule is decided on expression types (c18_reads.go).
+//
+// Files: c18.go (registration, external table), c18_resolve.go, c18_literal.go (L1), c18_l2.go,
+// c18_init.go + c18_flow.go + c18_sorted.go + c18_immutable.go (L2 b/c), c18_l3.go, c18_reads.go, c18_l4.go,
+// c18_interp.go + c18_exec.go + c18_stmt.go + c18_eval.go + c18_compare.go + c18_calls.go (the evaluator),
+// c18_benign.go + c18_variants.go (behaviour-preserving variants), c18_seeded.go (defects seeded into them).
 
 func init() {
-	register(&core.Property{
+	c18Prop := &core.Property{
 		ID:    "C18",
 		Title: "Area classification of ways follows the published polygon-features rules",
 		Explanation: "Decided statically: (L1) the JSON literal unmarshalled into the conditions table, read as a constant through the type checker, equals tables/polygon-features.json (the published Overpass-turbo/osmtogeojson list) as a map key -> (all|whitelist|blacklist, value set), both directions, no duplicates; the published key `area` may be absent because the code handles it (L3). " +
-			"(L2) every binary search in (*Way).Polygon searches the current entry's value list for the tag value found under the entry's key, the value lists are sorted before any call (literal already sorted, or init sorts every entry in place on every iteration after the unmarshal), and nothing else writes the table. " +
-			"(L3) (*Way).Polygon, evaluated over its control-flow graph for every combination of the finite abstractions {len(nodes) 0..5} x {closed, open} x {area: absent, no, other...} and, per rule entry, {value: absent, no, other...} x {all, whitelist, blacklist} x {search index at end, inside} x {element equal, different}, returns exactly what the published algorithm returns, never indexes out of range, the blacklist truth table is the complement of the whitelist one, and tags are read only through Tags.Find with constant or table keys (so the answer depends on the tag set only). " +
+			"(L2) every binary search evaluated while (*Way).Polygon (or a function of the package it calls) decides a whitelist or blacklist entry searches that entry's value list for the tag value found under the entry's key; the value lists are sorted before any call (literal already sorted, or on every path through a package init function the unmarshal is followed by a complete loop over the table in which every iteration sorts the entry's list in place, directly or in helpers); nothing else writes the table (local pointers to an entry must be read-only). " +
+			"(L3) (*Way).Polygon, executed over the control-flow graphs of itself and of every package function it calls (parameters, receivers, multi-value results, closures, re-assigned locals and pointer aliases are followed) for every combination of the finite abstractions {len(nodes) 0..5} x {closed, open} x {area: absent, no, other...} and, per rule entry, {value: absent, no, other...} x {all, whitelist, blacklist} x {search index at end, inside} x {element equal, different}, returns exactly what the published algorithm returns, never indexes out of range, the blacklist truth table is the complement of the whitelist one, an iteration of the rule loop that does not return leaves every local of the prefix unchanged (so the loop is `first matching entry wins`), and every expression of way, node-list, way-node or tag-list type in the evaluated functions is a len/index/ID read or a Tags.Find with the key `area` or the entry's key (so the answer depends on closedness and the tag set only). " +
 			"(L4) (*Relation).Polygon is true exactly for type in {multipolygon, boundary}. " +
-			"NOT decided: correctness of sort.SearchStrings/sort.Strings/encoding/json themselves; tag lists holding the same key twice (Find returns the first); calls to Polygon from another package-level initialiser that runs before polygon.go's init.",
-		Assumptions: []string{"go/types constant evaluation, go/cfg (x/tools v0.29.0)", "encoding/json.Unmarshal field matching by struct tag (case-insensitive)", "sort.SearchStrings returns the insertion index in [0,len] on a sorted slice", "sort.Strings / sort.StringSlice.Sort / slices.Sort sort in place", "package init runs before any exported call", "tables/polygon-features.json is a faithful transcription of the published list"},
+			"NOT decided: behaviour for node counts above 5 beyond `4 behaves like 5` (the rule loop may not compare the node count); value lists longer than the one-element abstraction when code branches on len(values) other than against the search index; correctness of sort.SearchStrings/sort.Strings/encoding/json themselves; tag lists holding the same key twice (Find returns the first); calls to Polygon from another package-level initialiser that runs before polygon.go's init.",
+		Assumptions: []string{"go/types constant evaluation, go/cfg (x/tools v0.29.0)", "encoding/json.Unmarshal field matching by struct tag (case-insensitive)", "sort.SearchStrings returns the insertion index in [0,len] on a sorted slice", "sort.Strings / sort.StringSlice.Sort / slices.Sort sort in place", "package init runs before any exported call", "Tags.Find(k) returns the value of the first tag with key k, \"\" when absent (it is the primitive through which tags are read; its body is not evaluated)", "tables/polygon-features.json is a faithful transcription of the published list"},
 		LevelText:   "The embedded rule table is compared entry by entry with the published polygon-features list, and the decision procedure of Way.Polygon / Relation.Polygon is evaluated over its control-flow graph for every combination of a finite abstraction of its inputs (node count, closedness, area tag class, per-entry value class, condition kind, binary-search outcome); together with the sorted-before-search precondition this fixes the function's result for every tag set without duplicate keys.",
 		LevelNote:   "Trusts the type checker's constant folding, go/cfg, encoding/json and package sort; the table file is a hand transcription of the published list (differences with the repository literal are reported, not copied).",
-		Technique:   "constant-literal extraction + external table comparison; finite-domain abstract evaluation of the CFG (boolean structure with short-circuit order, out-of-range hazards); dominance rules for sort-before-search",
+		Technique:   "constant-literal extraction + external table comparison; finite-domain evaluation by an interprocedural abstract interpreter over the CFGs (environment, calls into package functions, short-circuit order, out-of-range hazards, loop induction with an unchanged-environment check); interprocedural path-insensitive must-analysis for unmarshal-then-sort-every-entry; type-directed read-only scan",
 		DesignRef:   "DESIGN.md §5 C18",
+		// Floors count roles, not syntactic sites: L1 = source + 27 published keys; L2 = one lookup obligation per
+		// condition kind with a list (whitelist, blacklist) + sorted + immutable; L3 = 5 prefix clauses + skip +
+		// 3 kinds + negation + after-loop + reads + condition values; L4 = 2 accepted types + others + reads.
 		Rules: []*core.Rule{
 			{ID: "L1", Floor: 28, Doc: "embedded JSON literal equals the published polygon-features table (per key, both directions)", Run: c18L1},
-			{ID: "L2", Floor: 4, Doc: "binary searches run on the entry's value list, which is sorted before use and never rewritten", Run: c18L2},
-			{ID: "L3", Floor: 13, Doc: "Way.Polygon decision procedure equals the published algorithm on every abstract input", Run: c18L3},
-			{ID: "L4", Floor: 4, Doc: "Relation.Polygon accepts exactly the types multipolygon and boundary", Run: c18L4},
+			{ID: "L2", Floor: 4, Doc: "binary searches (in Polygon or its helpers) run on the entry's value list for the entry's tag value; the lists are sorted on every path through init before use; the table is never rewritten", Run: c18L2},
+			{ID: "L3", Floor: 13, Doc: "Way.Polygon (with the package functions it calls) equals the published algorithm on every abstract input; reads only node ids and Tags.Find", Run: c18L3},
+			{ID: "L4", Floor: 4, Doc: "Relation.Polygon (with the package functions it calls) accepts exactly the types multipolygon and boundary and reads only Tags.Find(type)", Run: c18L4},
 		},
 		Mutants: []core.Mutant{
 			{Name: "lit-drop-key", File: "polygon.go", Find: "    {\n        \"key\": \"craft\",\n        \"polygon\": \"all\"\n    },\n", Replace: "", ExpectRule: "L1", ExpectConstruct: "key craft"},
@@ -75,7 +77,10 @@ func init() {
 			{Name: "relation-accepts-route", File: "polygon.go", Find: "t == \"multipolygon\" || t == \"boundary\"", Replace: "t == \"multipolygon\" || t == \"boundary\" || t == \"route\"", ExpectRule: "L4", ExpectConstruct: "others"},
 			{Name: "relation-drops-boundary", File: "polygon.go", Find: "t == \"multipolygon\" || t == \"boundary\"", Replace: "t == \"multipolygon\"", ExpectRule: "L4", ExpectConstruct: "type=boundary"},
 		},
-	})
+		Benign: c18Benign(),
+	}
+	c18Prop.Mutants = append(c18Prop.Mutants, c18ShapeMutants()...)
+	register(c18Prop)
 }
 
 // ---------------------------------------------------------------------------
@@ -138,1631 +143,4 @@ func c18LoadTable() (*c18Table, error) {
 		seen[f.Key] = true
 	}
 	return &t, nil
-}
-
-// ---------------------------------------------------------------------------
-// resolution of the mechanism by role
-
-type c18Ctx struct {
-	pk    *packages.Package
-	info  *types.Info
-	fi    *FuncInfo // (*Way).Polygon
-	recv  types.Object
-	loop  *ast.RangeStmt // the rule loop
-	table *types.Var     // package-level conditions table
-	keyF  *types.Var
-	condF *types.Var
-	valsF *types.Var
-	// declared values of the condition type: object -> constant string
-	condVals map[types.Object]string
-}
-
-// c18FuncDecls lists every function declaration with a body (including init functions).
-func c18FuncDecls(pk *packages.Package) []*ast.FuncDecl {
-	var out []*ast.FuncDecl
-	for _, f := range pk.Syntax {
-		for _, d := range f.Decls {
-			if fd, ok := d.(*ast.FuncDecl); ok && fd.Body != nil {
-				out = append(out, fd)
-			}
-		}
-	}
-	return out
-}
-
-// c18VarInit returns the initialiser expression of a package-level variable or constant.
-func c18VarInit(pk *packages.Package, obj types.Object) ast.Expr {
-	for _, f := range pk.Syntax {
-		for _, d := range f.Decls {
-			gd, ok := d.(*ast.GenDecl)
-			if !ok {
-				continue
-			}
-			for _, sp := range gd.Specs {
-				vs, ok := sp.(*ast.ValueSpec)
-				if !ok {
-					continue
-				}
-				for i, nm := range vs.Names {
-					if pk.TypesInfo.Defs[nm] == obj && len(vs.Values) == len(vs.Names) {
-						return vs.Values[i]
-					}
-				}
-			}
-		}
-	}
-	return nil
-}
-
-// c18JSONName is the name encoding/json uses for field i ("" when the field is skipped).
-func c18JSONName(st *types.Struct, i int) string {
-	f := st.Field(i)
-	if !f.Exported() {
-		return ""
-	}
-	tag := reflect.StructTag(st.Tag(i)).Get("json")
-	if tag == "-" {
-		return ""
-	}
-	name := strings.Split(tag, ",")[0]
-	if name == "" {
-		name = f.Name()
-	}
-	return name
-}
-
-func c18Resolve(r *core.R) *c18Ctx {
-	pk := r.P.Pkg("")
-	fi := findFunc(pk, "(*Way).Polygon")
-	if fi == nil || fi.Decl.Body == nil || fi.Decl.Recv == nil || len(fi.Decl.Recv.List) != 1 || len(fi.Decl.Recv.List[0].Names) != 1 {
-		r.Anchor("(*Way).Polygon with a named receiver")
-		return nil
-	}
-	c := &c18Ctx{pk: pk, info: pk.TypesInfo, fi: fi, condVals: map[types.Object]string{}}
-	c.recv = c.info.Defs[fi.Decl.Recv.List[0].Names[0]]
-	var loops []*ast.RangeStmt
-	inspectNoLit(fi.Decl.Body, func(n ast.Node) bool {
-		rs, ok := n.(*ast.RangeStmt)
-		if !ok {
-			return true
-		}
-		v, _ := objOf(c.info, rs.X).(*types.Var)
-		if v == nil || v.Parent() != pk.Types.Scope() {
-			return true
-		}
-		if sl, ok := v.Type().Underlying().(*types.Slice); ok {
-			if _, ok := sl.Elem().Underlying().(*types.Struct); ok {
-				loops = append(loops, rs)
-				c.table = v
-			}
-		}
-		return true
-	})
-	if len(loops) != 1 {
-		r.Anchor(fmt.Sprintf("(*Way).Polygon: exactly one range loop over a package-level table of rule structs (found %d)", len(loops)))
-		return nil
-	}
-	c.loop = loops[0]
-	st := c.table.Type().Underlying().(*types.Slice).Elem().Underlying().(*types.Struct)
-	for i := 0; i < st.NumFields(); i++ {
-		switch n := c18JSONName(st, i); {
-		case strings.EqualFold(n, "key"):
-			c.keyF = st.Field(i)
-		case strings.EqualFold(n, "polygon"):
-			c.condF = st.Field(i)
-		case strings.EqualFold(n, "values"):
-			c.valsF = st.Field(i)
-		}
-	}
-	if c.keyF == nil || c.condF == nil || c.valsF == nil {
-		r.Anchor("fields of the rule struct with JSON names key, polygon, values (the published file format)")
-		return nil
-	}
-	if b, ok := c.keyF.Type().Underlying().(*types.Basic); !ok || b.Kind() != types.String {
-		r.Anchor("rule struct field `key` of string type")
-		return nil
-	}
-	if b, ok := c.condF.Type().Underlying().(*types.Basic); !ok || b.Kind() != types.String {
-		r.Anchor("rule struct field `polygon` of string type")
-		return nil
-	}
-	if sl, ok := c.valsF.Type().Underlying().(*types.Slice); !ok || !types.Identical(sl.Elem(), types.Typ[types.String]) {
-		r.Anchor("rule struct field `values` of type []string")
-		return nil
-	}
-	if _, named := c.condF.Type().(*types.Named); named {
-		sc := pk.Types.Scope()
-		for _, nm := range sc.Names() {
-			o := sc.Lookup(nm)
-			if !types.Identical(o.Type(), c.condF.Type()) {
-				continue
-			}
-			switch o := o.(type) {
-			case *types.Const:
-				if o.Val().Kind() == constant.String {
-					c.condVals[o] = constant.StringVal(o.Val())
-				}
-			case *types.Var:
-				if e := c18VarInit(pk, o); e != nil {
-					if s, ok := constString(c.info, e); ok {
-						c.condVals[o] = s
-					}
-				}
-			}
-		}
-	}
-	return c
-}
-
-// c18Writes lists the places where a package-level object is (or may be) written:
-// assignment through it, ++/--, address taken, destination of copy. allow filters accepted nodes.
-func c18Writes(pk *packages.Package, obj types.Object, allow func(ast.Node) bool) []token.Pos {
-	info := pk.TypesInfo
-	var out []token.Pos
-	add := func(n ast.Node) {
-		if allow == nil || !allow(n) {
-			out = append(out, n.Pos())
-		}
-	}
-	for _, f := range pk.Syntax {
-		ast.Inspect(f, func(n ast.Node) bool {
-			switch x := n.(type) {
-			case *ast.AssignStmt:
-				for _, l := range x.Lhs {
-					if rootObj(info, l) == obj {
-						add(x)
-					}
-				}
-			case *ast.IncDecStmt:
-				if rootObj(info, x.X) == obj {
-					add(x)
-				}
-			case *ast.UnaryExpr:
-				if x.Op == token.AND && rootObj(info, x.X) == obj {
-					add(x)
-				}
-			case *ast.RangeStmt:
-				if x.Tok == token.ASSIGN && ((x.Key != nil && rootObj(info, x.Key) == obj) || (x.Value != nil && rootObj(info, x.Value) == obj)) {
-					add(x)
-				}
-			case *ast.CallExpr:
-				if builtinName(info, x) == "copy" && len(x.Args) == 2 && rootObj(info, x.Args[0]) == obj {
-					add(x)
-				}
-			}
-			return true
-		})
-	}
-	return out
-}
-
-// ---------------------------------------------------------------------------
-// the embedded literal
-
-type c18Lit struct {
-	text   string
-	expr   ast.Expr       // the constant string expression
-	srcVar *types.Var     // package variable holding the bytes (nil when inline)
-	call   *ast.CallExpr  // json.Unmarshal(bytes, &table)
-	fd     *ast.FuncDecl  // function containing the call
-	addr   *ast.UnaryExpr // &table
-}
-
-func c18FindLiteral(c *c18Ctx) (*c18Lit, string) {
-	var found []*c18Lit
-	for _, fd := range c18FuncDecls(c.pk) {
-		fd := fd
-		ast.Inspect(fd.Body, func(n ast.Node) bool {
-			call, ok := n.(*ast.CallExpr)
-			if !ok || len(call.Args) != 2 || !isPkgFunc(callee(c.info, call), "encoding/json", "Unmarshal") {
-				return true
-			}
-			ue, ok := ast.Unparen(call.Args[1]).(*ast.UnaryExpr)
-			if !ok || ue.Op != token.AND || objOf(c.info, ue.X) != c.table {
-				return true
-			}
-			found = append(found, &c18Lit{call: call, fd: fd, addr: ue})
-			return true
-		})
-	}
-	if len(found) != 1 {
-		return nil, fmt.Sprintf("expected exactly one json.Unmarshal(..., &%s) in package osm, found %d", c.table.Name(), len(found))
-	}
-	l := found[0]
-	e := ast.Unparen(l.call.Args[0])
-	if v, ok := objOf(c.info, e).(*types.Var); ok && v.Parent() == c.pk.Types.Scope() {
-		l.srcVar = v
-		e = c18VarInit(c.pk, v)
-		if e == nil {
-			return nil, "the byte variable " + v.Name() + " has no initialiser"
-		}
-		e = ast.Unparen(e)
-	}
-	// []byte(<constant string>)
-	if conv, ok := e.(*ast.CallExpr); ok && len(conv.Args) == 1 {
-		if tv, ok := c.info.Types[conv.Fun]; ok && tv.IsType() {
-			if s, ok := constString(c.info, conv.Args[0]); ok {
-				l.text, l.expr = s, conv.Args[0]
-				return l, ""
-			}
-		}
-	}
-	return nil, "the first argument of json.Unmarshal is not `[]byte(<constant string>)` or a package variable initialised that way"
-}
-
-type c18Entry struct {
-	key, cond string
-	values    []string
-}
-
-// c18ParseLiteral decodes the literal the way encoding/json fills the rule struct.
-func c18ParseLiteral(c *c18Ctx, text string) ([]c18Entry, error) {
-	var raw []map[string]json.RawMessage
-	if err := json.Unmarshal([]byte(text), &raw); err != nil {
-		return nil, err
-	}
-	st := c.table.Type().Underlying().(*types.Slice).Elem().Underlying().(*types.Struct)
-	names := map[*types.Var]string{}
-	for i := 0; i < st.NumFields(); i++ {
-		names[st.Field(i)] = c18JSONName(st, i)
-	}
-	var out []c18Entry
-	for i, m := range raw {
-		var e c18Entry
-		for k, v := range m {
-			var err error
-			switch {
-			case strings.EqualFold(k, names[c.keyF]):
-				err = json.Unmarshal(v, &e.key)
-			case strings.EqualFold(k, names[c.condF]):
-				err = json.Unmarshal(v, &e.cond)
-			case strings.EqualFold(k, names[c.valsF]):
-				err = json.Unmarshal(v, &e.values)
-			}
-			if err != nil {
-				return nil, fmt.Errorf("entry %d, member %q: %v", i, k, err)
-			}
-		}
-		out = append(out, e)
-	}
-	return out, nil
-}
-
-// c18LitPos maps an offset inside a raw string literal to a source position (diagnostics only).
-func c18LitPos(l *c18Lit, needle string) token.Pos {
-	if bl, ok := ast.Unparen(l.expr).(*ast.BasicLit); ok && strings.HasPrefix(bl.Value, "`") {
-		if i := strings.Index(l.text, needle); i >= 0 {
-			return bl.Pos() + token.Pos(1+i)
-		}
-	}
-	return l.expr.Pos()
-}
-
-func c18Set(vs []string) []string {
-	m := map[string]bool{}
-	for _, v := range vs {
-		m[v] = true
-	}
-	var out []string
-	for v := range m {
-		out = append(out, v)
-	}
-	sort.Strings(out)
-	return out
-}
-
-func c18Diff(a, b []string) []string {
-	in := map[string]bool{}
-	for _, v := range b {
-		in[v] = true
-	}
-	var out []string
-	for _, v := range a {
-		if !in[v] {
-			out = append(out, v)
-		}
-	}
-	return out
-}
-
-func c18L1(r *core.R) {
-	c := c18Resolve(r)
-	if c == nil {
-		return
-	}
-	tab, err := c18LoadTable()
-	if err != nil {
-		r.Anchor("tables/polygon-features.json: " + err.Error())
-		return
-	}
-	lit, why := c18FindLiteral(c)
-	if lit == nil {
-		r.Anchor("JSON literal unmarshalled into " + c.table.Name() + ": " + why)
-		return
-	}
-	srcC := "source@" + c.table.Name()
-	entries, perr := c18ParseLiteral(c, lit.text)
-	if perr != nil {
-		r.Bad(srcC, lit.expr.Pos(), "the embedded literal does not decode into []%s (%v): init panics and no way is ever classified", c.table.Type().Underlying().(*types.Slice).Elem(), perr)
-		return
-	}
-	if lit.srcVar != nil {
-		if w := c18Writes(c.pk, lit.srcVar, nil); len(w) > 0 {
-			r.Bad(srcC, w[0], "the byte variable %s holding the literal is written at %s: the table parsed at init is not the embedded constant", lit.srcVar.Name(), r.P.Rel(w[0]))
-		} else {
-			r.OK(srcC, lit.call.Pos(), "json.Unmarshal(%s, &%s) reads package variable %s = []byte(<constant of %d bytes>), never written elsewhere; %d entries decode into the rule struct", lit.srcVar.Name(), c.table.Name(), lit.srcVar.Name(), len(lit.text), len(entries))
-		}
-	} else {
-		r.OK(srcC, lit.call.Pos(), "json.Unmarshal([]byte(<constant of %d bytes>), &%s); %d entries decode into the rule struct", len(lit.text), c.table.Name(), len(entries))
-	}
-	r.Stat("literal_entries", len(entries))
-	byKey := map[string][]c18Entry{}
-	for _, e := range entries {
-		byKey[e.key] = append(byKey[e.key], e)
-	}
-	inTable := map[string]bool{}
-	for _, f := range tab.Features {
-		inTable[f.Key] = true
-		cn := "key " + f.Key
-		pos := c18LitPos(lit, `"`+f.Key+`"`)
-		es := byKey[f.Key]
-		switch {
-		case len(es) == 0 && f.CodeHandled:
-			r.OKTrivial(cn, lit.expr.Pos(), "published as polygon=%s; not in the literal because the code decides it before the rule loop (checked by C18.L3 area=no / area=<other>)", f.Polygon)
-		case len(es) == 0:
-			r.Bad(cn, lit.expr.Pos(), "the published list has key %q (polygon=%s %v) but the embedded literal has no entry for it: a closed way tagged only %s=* is no longer an area", f.Key, f.Polygon, f.Values, f.Key)
-		case len(es) > 1:
-			r.Bad(cn, pos, "key %q occurs %d times in the embedded literal; the entries are or-ed, which is not the published single rule", f.Key, len(es))
-		case es[0].cond != f.Polygon:
-			r.Bad(cn, pos, "key %q has polygon=%q in the embedded literal, the published list says %q %v: values of %s are classified the other way round", f.Key, es[0].cond, f.Polygon, f.Values, f.Key)
-		case f.Polygon == "all":
-			r.OK(cn, pos, "polygon=all in literal and published list")
-		default:
-			got, want := c18Set(es[0].values), c18Set(f.Values)
-			miss, extra := c18Diff(want, got), c18Diff(got, want)
-			if len(miss)+len(extra) > 0 {
-				r.Bad(cn, pos, "key %q (%s): value set differs from the published list: missing %v, extra %v; %s=<those values> is misclassified", f.Key, f.Polygon, miss, extra, f.Key)
-			} else {
-				r.OK(cn, pos, "polygon=%s with the published value set %v", f.Polygon, want)
-			}
-		}
-	}
-	var extraKeys []string
-	for k := range byKey {
-		if !inTable[k] {
-			extraKeys = append(extraKeys, k)
-		}
-	}
-	sort.Strings(extraKeys)
-	for _, k := range extraKeys {
-		r.Bad("key "+k, c18LitPos(lit, `"`+k+`"`), "the embedded literal has key %q (polygon=%q) which is not in the published list: closed ways tagged %s=* become areas although the published rules say they are lines", k, byKey[k][0].cond, k)
-	}
-}
-
-// ---------------------------------------------------------------------------
-// L2: lookup precondition
-
-// c18EntryOf reports whether e denotes the current element of a range loop over the table:
-// the range value variable, or table[<range key variable>].
-func c18EntryOf(info *types.Info, table types.Object, rs *ast.RangeStmt, e ast.Expr) bool {
-	e = ast.Unparen(e)
-	if rs == nil {
-		return false
-	}
-	if id, ok := e.(*ast.Ident); ok {
-		return rs.Value != nil && objOf(info, rs.Value) != nil && objOf(info, id) == objOf(info, rs.Value)
-	}
-	if ix, ok := e.(*ast.IndexExpr); ok {
-		return rs.Key != nil && objOf(info, ix.X) == table && objOf(info, rs.Key) != nil && objOf(info, ix.Index) == objOf(info, rs.Key)
-	}
-	return false
-}
-
-// c18EntryField reports whether e is <entry>.f for the loop rs.
-func c18EntryField(info *types.Info, table types.Object, rs *ast.RangeStmt, e ast.Expr, f *types.Var) bool {
-	if fieldOf(info, e) != f {
-		return false
-	}
-	return c18EntryOf(info, table, rs, ast.Unparen(e).(*ast.SelectorExpr).X)
-}
-
-// c18IsConv reports whether call is a conversion to the named type path and returns its operand.
-func c18IsConv(info *types.Info, e ast.Expr, path string) ast.Expr {
-	call, ok := ast.Unparen(e).(*ast.CallExpr)
-	if !ok || len(call.Args) != 1 {
-		return nil
-	}
-	if tv, ok := info.Types[call.Fun]; !ok || !tv.IsType() || namedPath(tv.Type) != path {
-		return nil
-	}
-	return call.Args[0]
-}
-
-// c18SortTarget recognises the in-place ascending string sorts
-//
-//	sort.Strings(X)   slices.Sort(X)   sort.StringSlice(X).Sort()
-//	sort.Sort(sort.StringSlice(X))   sort.Stable(sort.StringSlice(X))
-//
-// and returns X.
-func c18SortTarget(info *types.Info, call *ast.CallExpr) ast.Expr {
-	fn := callee(info, call)
-	switch {
-	case (isPkgFunc(fn, "sort", "Strings") || isPkgFunc(fn, "slices", "Sort")) && len(call.Args) == 1:
-		return call.Args[0]
-	case (isPkgFunc(fn, "sort", "Sort") || isPkgFunc(fn, "sort", "Stable")) && len(call.Args) == 1:
-		return c18IsConv(info, call.Args[0], "sort.StringSlice")
-	case isMethod(fn, "sort.StringSlice", "Sort") && len(call.Args) == 0:
-		if sel, ok := ast.Unparen(call.Fun).(*ast.SelectorExpr); ok {
-			return c18IsConv(info, sel.X, "sort.StringSlice")
-		}
-	}
-	return nil
-}
-
-func c18IsPanicExit(info *types.Info, b *cfg.Block) bool {
-	if len(b.Nodes) == 0 {
-		return false
-	}
-	es, ok := b.Nodes[len(b.Nodes)-1].(*ast.ExprStmt)
-	if !ok {
-		return false
-	}
-	call, ok := es.X.(*ast.CallExpr)
-	return ok && builtinName(info, call) == "panic"
-}
-
-func c18L2(r *core.R) {
-	c := c18Resolve(r)
-	if c == nil {
-		return
-	}
-	info := c.info
-	fname := c.fi.Name()
-	x := c18NewExec(r, c.pk, c.fi.Decl, c)
-
-	// (a) every search in Way.Polygon is sort.SearchStrings(<entry>.values, <value found under entry.key>)
-	nsearch := 0
-	inspectNoLit(c.fi.Decl.Body, func(n ast.Node) bool {
-		call, ok := n.(*ast.CallExpr)
-		if !ok {
-			return true
-		}
-		fn := callee(info, call)
-		if fn == nil || fn.Pkg() == nil || (fn.Pkg().Path() != "sort" && fn.Pkg().Path() != "slices") {
-			return true
-		}
-		nsearch++
-		cn := "search@" + fname + " " + src(r.P.Fset, call)
-		if !isPkgFunc(fn, "sort", "SearchStrings") || len(call.Args) != 2 {
-			r.Unknown(cn, call.Pos(), "call to %s.%s in the classification is not among the recognised lookups (sort.SearchStrings(entry.values, value))", fn.Pkg().Path(), fn.Name())
-			return true
-		}
-		if !c18EntryField(info, c.table, c.loop, call.Args[0], c.valsF) {
-			r.Bad(cn, call.Pos(), "the slice searched, `%s`, is not the value list (%s) of the entry of %s the loop is at: membership is decided against another list", src(r.P.Fset, call.Args[0]), c.valsF.Name(), c.table.Name())
-			return true
-		}
-		if ts, ok := x.tagSource(call.Args[1]); !ok || !ts.entry {
-			r.Bad(cn, call.Pos(), "the needle `%s` is not the tag value found under the entry's key (Tags.Find(entry.%s)): the whitelist/blacklist is consulted for the wrong string", src(r.P.Fset, call.Args[1]), c.keyF.Name())
-			return true
-		}
-		r.OK(cn, call.Pos(), "binary search of the current entry's %s for the value of Tags.Find(entry.%s)", c.valsF.Name(), c.keyF.Name())
-		return true
-	})
-	r.Stat("search_sites", nsearch)
-
-	// (b) the value lists are sorted before any search
-	sc := "sorted@" + c.table.Name()
-	lit, why := c18FindLiteral(c)
-	if lit == nil {
-		r.Anchor("JSON literal unmarshalled into " + c.table.Name() + ": " + why)
-		return
-	}
-	entries, perr := c18ParseLiteral(c, lit.text)
-	if perr != nil {
-		r.Bad(sc, lit.expr.Pos(), "the embedded literal does not decode (%v)", perr)
-		return
-	}
-	var unsorted []string
-	for _, e := range entries {
-		if !sort.StringsAreSorted(e.values) {
-			unsorted = append(unsorted, e.key)
-		}
-	}
-	c18CheckSorted(r, c, lit, sc, unsorted)
-
-	// (c) nobody else writes the table
-	ic := "immutable@" + c.table.Name()
-	ws := c18Writes(c.pk, c.table, func(n ast.Node) bool { return n == lit.addr })
-	switch {
-	case len(ws) == 0:
-		r.OK(ic, lit.call.Pos(), "%s is written only through &%s in the json.Unmarshal call of %s (plus the in-place sort of its value lists)", c.table.Name(), c.table.Name(), lit.fd.Name.Name)
-	case lit.fd.Body.Pos() <= ws[0] && ws[0] <= lit.fd.Body.End():
-		r.Unknown(ic, ws[0], "%s is also written at %s inside %s; the rule only understands unmarshal followed by an in-place sort", c.table.Name(), r.P.Rel(ws[0]), lit.fd.Name.Name)
-	default:
-		r.Bad(ic, ws[0], "%s is written at %s outside its initialiser: the table (or the sortedness of its value lists) can change after init", c.table.Name(), r.P.Rel(ws[0]))
-	}
-}
-
-// c18CheckSorted discharges "value lists sorted before use".
-func c18CheckSorted(r *core.R, c *c18Ctx, lit *c18Lit, sc string, unsorted []string) {
-	info := c.info
-	if len(unsorted) == 0 {
-		r.OKTrivial(sc, lit.expr.Pos(), "every value list of the embedded literal is already in ascending order")
-		return
-	}
-	need := fmt.Sprintf("value lists of %v are not in ascending order in the literal, and sort.SearchStrings on an unsorted list misses members", unsorted)
-	fd := lit.fd
-	if fd.Name.Name != "init" || fd.Recv != nil {
-		r.Unknown(sc, lit.call.Pos(), "%s; the unmarshal is in %s, not in a package init function, so the rule cannot order it before the first search", need, fd.Name.Name)
-		return
-	}
-	g := newCFG(info, fd.Body)
-	dom := dominators(g)
-	var reasons []string
-	ok := false
-	var okLoop *ast.RangeStmt
-	var okCall *ast.CallExpr
-	inspectNoLit(fd.Body, func(n ast.Node) bool {
-		rs, isRange := n.(*ast.RangeStmt)
-		if !isRange || objOf(info, rs.X) != c.table {
-			return true
-		}
-		// sort calls on <entry>.values inside the body
-		var sorts []*ast.CallExpr
-		copyAssign := false
-		inspectNoLit(rs.Body, func(m ast.Node) bool {
-			switch y := m.(type) {
-			case *ast.CallExpr:
-				if t := c18SortTarget(info, y); t != nil && c18EntryField(info, c.table, rs, t, c.valsF) {
-					sorts = append(sorts, y)
-				}
-			case *ast.AssignStmt:
-				for _, l := range y.Lhs {
-					if fieldOf(info, l) == c.valsF && rs.Value != nil && rootObj(info, l) == objOf(info, rs.Value) {
-						copyAssign = true
-					}
-				}
-			}
-			return true
-		})
-		if len(sorts) == 0 {
-			if copyAssign {
-				reasons = append(reasons, fmt.Sprintf("the loop at %s assigns to the %s field of the range-value copy, which never reaches %s", r.P.Rel(rs.Pos()), c.valsF.Name(), c.table.Name()))
-			} else {
-				reasons = append(reasons, fmt.Sprintf("the loop at %s contains no in-place sort (sort.Strings / sort.StringSlice(..).Sort() / sort.Sort(sort.StringSlice(..)) / slices.Sort) of the entry's %s", r.P.Rel(rs.Pos()), c.valsF.Name()))
-			}
-			return true
-		}
-		var head, body, done *cfg.Block
-		for _, b := range g.Blocks {
-			if b.Stmt == rs {
-				switch b.Kind {
-				case cfg.KindRangeLoop:
-					head = b
-				case cfg.KindRangeBody:
-					body = b
-				case cfg.KindRangeDone:
-					done = b
-				}
-			}
-		}
-		if head == nil || body == nil || done == nil {
-			reasons = append(reasons, "range loop not found in the control-flow graph")
-			return true
-		}
-		// 1. the unmarshal happens before the loop
-		if !posDominates(g, dom, lit.call.Pos(), rs.X.Pos()) {
-			reasons = append(reasons, fmt.Sprintf("json.Unmarshal does not dominate the sorting loop at %s (sorting an empty table)", r.P.Rel(rs.Pos())))
-			return true
-		}
-		// 2. every iteration sorts: from the body entry nothing but the sort block leads back to the head or out
-		sb, _ := blockOf(g, sorts[0].Pos())
-		if sb == nil {
-			reasons = append(reasons, "sort call not found in the control-flow graph")
-			return true
-		}
-		if sb != body {
-			reach := reachableFrom([]*cfg.Block{body}, func(b *cfg.Block) bool { return b == sb })
-			skipped := false
-			for b := range reach {
-				if b == sb {
-					continue
-				}
-				if b == head || b == done || (len(b.Succs) == 0 && !c18IsPanicExit(info, b)) {
-					skipped = true
-				}
-			}
-			if skipped {
-				reasons = append(reasons, fmt.Sprintf("some iterations of the loop at %s reach the next entry or leave the loop without passing `%s`: those entries stay unsorted", r.P.Rel(rs.Pos()), src(r.P.Fset, sorts[0])))
-				return true
-			}
-		}
-		// 3. every normal exit of init is behind the completed loop
-		for _, b := range g.Blocks {
-			if !b.Live || len(b.Succs) != 0 || c18IsPanicExit(info, b) {
-				continue
-			}
-			if b != done && !dom[b][done] {
-				reasons = append(reasons, fmt.Sprintf("init can finish without completing the sorting loop at %s", r.P.Rel(rs.Pos())))
-				return true
-			}
-		}
-		ok, okLoop, okCall = true, rs, sorts[0]
-		return true
-	})
-	if ok {
-		r.OK(sc, okCall.Pos(), "literal lists of %v are unsorted, but init: json.Unmarshal dominates the loop over %[2]s (element `%[1]s`), every iteration passes `%s` (in place on the shared backing array), and every normal exit of init is dominated by the end of that loop", unsorted, src(r.P.Fset, okLoop.Value), c.table.Name(), src(r.P.Fset, okCall))
-		return
-	}
-	if len(reasons) == 0 {
-		reasons = append(reasons, "init has no loop over "+c.table.Name()+" after the unmarshal")
-	}
-	r.Bad(sc, lit.call.Pos(), "%s; %s", need, strings.Join(reasons, "; "))
-}
-
-// ---------------------------------------------------------------------------
-// finite-domain abstract evaluation of a classification function over its CFG
-
-// c18TagSrc says where a string came from: Tags.Find(<constant key>) or Tags.Find(<entry>.key).
-type c18TagSrc struct {
-	key   string
-	entry bool
-}
-
-// c18Scen is one abstract input.
-type c18Scen struct {
-	n      int64             // len(receiver.Nodes); -1 when the function has no node list
-	closed bool              // first and last node id are equal
-	tags   map[string]string // value Tags.Find returns for a constant key ("" = absent)
-	inBody bool              // the per-entry atoms below are defined
-	v      string            // value Tags.Find returns for the entry's key
-	cond   string            // the entry's condition kind
-	p      bool              // the search index equals len(values) (value greater than every element)
-	q      bool              // values[index] == value (only meaningful when !p)
-}
-
-func (s *c18Scen) String() string {
-	var parts []string
-	if s.n >= 0 {
-		parts = append(parts, fmt.Sprintf("len(nodes)=%d", s.n), map[bool]string{true: "closed", false: "open"}[s.closed])
-	}
-	var ks []string
-	for k := range s.tags {
-		ks = append(ks, k)
-	}
-	sort.Strings(ks)
-	for _, k := range ks {
-		parts = append(parts, fmt.Sprintf("%s=%q", k, s.tags[k]))
-	}
-	if s.inBody {
-		parts = append(parts, fmt.Sprintf("entry.polygon=%s", s.cond), fmt.Sprintf("<entry.key>=%q", s.v))
-		if s.p {
-			parts = append(parts, "search index = len(values)")
-		} else {
-			parts = append(parts, "search index < len(values)", fmt.Sprintf("values[index]==value is %v", s.q))
-		}
-	}
-	return strings.Join(parts, ", ")
-}
-
-// c18Out is what the function does on one abstract input.
-type c18Out struct {
-	kind  string // "true" | "false" (returned) | "head" (next entry / reaches the rule loop) | "break" | "end" | "panic" | "unknown"
-	pos   token.Pos
-	note  string
-	trace []string
-}
-
-func (o c18Out) describe() string {
-	var s string
-	switch o.kind {
-	case "true", "false":
-		s = "returns " + o.kind
-	case "head":
-		s = "goes on to the next rule entry"
-	case "break":
-		s = "leaves the rule loop"
-	case "end":
-		s = "falls off the end"
-	case "panic":
-		s = "panics: " + o.note
-	default:
-		s = "cannot be evaluated: " + o.note
-	}
-	if len(o.trace) > 0 {
-		s += " [path: " + strings.Join(o.trace, "; ") + "]"
-	}
-	return s
-}
-
-type c18Exec struct {
-	r     *core.R
-	pk    *packages.Package
-	info  *types.Info
-	fd    *ast.FuncDecl
-	par   map[ast.Node]ast.Node
-	g     *cfg.CFG
-	recv  types.Object
-	ctx   *c18Ctx // nil when the function has no rule table (Relation.Polygon)
-	head  *cfg.Block
-	body  *cfg.Block
-	done  *cfg.Block
-	tagV  map[types.Object]c18TagSrc
-	idxV  map[types.Object]bool
-	multi []string // variables with a recognised source but several definitions
-}
-
-func c18NewExec(r *core.R, pk *packages.Package, fd *ast.FuncDecl, ctx *c18Ctx) *c18Exec {
-	x := &c18Exec{r: r, pk: pk, info: pk.TypesInfo, fd: fd, ctx: ctx, tagV: map[types.Object]c18TagSrc{}, idxV: map[types.Object]bool{}}
-	x.par = r.P.Parents(r.P.FileOf(pk, fd.Pos()))
-	x.g = newCFG(x.info, fd.Body)
-	if fd.Recv != nil && len(fd.Recv.List) == 1 && len(fd.Recv.List[0].Names) == 1 {
-		x.recv = x.info.Defs[fd.Recv.List[0].Names[0]]
-	}
-	if ctx != nil {
-		for _, b := range x.g.Blocks {
-			if b.Stmt == ctx.loop {
-				switch b.Kind {
-				case cfg.KindRangeLoop:
-					x.head = b
-				case cfg.KindRangeBody:
-					x.body = b
-				case cfg.KindRangeDone:
-					x.done = b
-				}
-			}
-		}
-	}
-	// local variables defined from Tags.Find(...) or sort.SearchStrings(entry.values, value)
-	defs := map[types.Object]int{}
-	inspectNoLit(fd.Body, func(n ast.Node) bool {
-		switch s := n.(type) {
-		case *ast.AssignStmt:
-			for _, l := range s.Lhs {
-				if o := objOf(x.info, l); o != nil {
-					defs[o]++
-				}
-			}
-		case *ast.IncDecStmt:
-			if o := objOf(x.info, s.X); o != nil {
-				defs[o] += 2
-			}
-		case *ast.UnaryExpr:
-			if o := objOf(x.info, s.X); o != nil && s.Op == token.AND {
-				defs[o] += 2
-			}
-		case *ast.RangeStmt:
-			for _, e := range []ast.Expr{s.Key, s.Value} {
-				if e != nil {
-					if o := objOf(x.info, e); o != nil {
-						defs[o]++
-					}
-				}
-			}
-		}
-		return true
-	})
-	// two passes: index variables need the value variables
-	for pass := 0; pass < 2; pass++ {
-		inspectNoLit(fd.Body, func(n ast.Node) bool {
-			as, ok := n.(*ast.AssignStmt)
-			if !ok || len(as.Lhs) != 1 || len(as.Rhs) != 1 {
-				return true
-			}
-			o := objOf(x.info, as.Lhs[0])
-			if o == nil {
-				return true
-			}
-			if pass == 0 {
-				if ts, ok := x.findCall(as.Rhs[0]); ok {
-					if defs[o] != 1 {
-						x.multi = append(x.multi, o.Name())
-					} else {
-						x.tagV[o] = ts
-					}
-				}
-				return true
-			}
-			if call, ok := ast.Unparen(as.Rhs[0]).(*ast.CallExpr); ok && ctx != nil && len(call.Args) == 2 && isPkgFunc(callee(x.info, call), "sort", "SearchStrings") {
-				if ts, ok := x.tagSource(call.Args[1]); ok && ts.entry && c18EntryField(x.info, ctx.table, ctx.loop, call.Args[0], ctx.valsF) {
-					if defs[o] != 1 {
-						x.multi = append(x.multi, o.Name())
-					} else {
-						x.idxV[o] = true
-					}
-				}
-			}
-			return true
-		})
-	}
-	return x
-}
-
-// findCall recognises <receiver>.Tags.Find(<constant>) and <receiver>.Tags.Find(<entry>.key).
-func (x *c18Exec) findCall(e ast.Expr) (c18TagSrc, bool) {
-	call, ok := ast.Unparen(e).(*ast.CallExpr)
-	if !ok || len(call.Args) != 1 || !isMethod(callee(x.info, call), core.ModulePath+".Tags", "Find") {
-		return c18TagSrc{}, false
-	}
-	sel, ok := ast.Unparen(call.Fun).(*ast.SelectorExpr)
-	if !ok || !x.recvField(sel.X, "Tags") {
-		return c18TagSrc{}, false
-	}
-	if k, ok := constString(x.info, call.Args[0]); ok {
-		return c18TagSrc{key: k}, true
-	}
-	if x.ctx != nil && c18EntryField(x.info, x.ctx.table, x.ctx.loop, call.Args[0], x.ctx.keyF) {
-		return c18TagSrc{entry: true}, true
-	}
-	return c18TagSrc{}, false
-}
-
-// tagSource resolves an expression to the Tags.Find call it stands for.
-func (x *c18Exec) tagSource(e ast.Expr) (c18TagSrc, bool) {
-	e = ast.Unparen(e)
-	if id, ok := e.(*ast.Ident); ok {
-		ts, ok := x.tagV[objOf(x.info, id)]
-		return ts, ok
-	}
-	return x.findCall(e)
-}
-
-// recvField reports whether e is <receiver>.<name>.
-func (x *c18Exec) recvField(e ast.Expr, name string) bool {
-	f := fieldOf(x.info, e)
-	if f == nil || f.Name() != name || x.recv == nil {
-		return false
-	}
-	return objOf(x.info, ast.Unparen(e).(*ast.SelectorExpr).X) == x.recv
-}
-
-func (x *c18Exec) entryField(e ast.Expr, f *types.Var) bool {
-	return x.ctx != nil && c18EntryField(x.info, x.ctx.table, x.ctx.loop, e, f)
-}
-
-// c18Eval carries the side results of evaluating one node.
-type c18Eval struct {
-	hazard  string
-	unknown string
-}
-
-func (x *c18Exec) evalStr(e ast.Expr, s *c18Scen) (string, bool) {
-	e = ast.Unparen(e)
-	if v, ok := constString(x.info, e); ok {
-		return v, true
-	}
-	if ts, ok := x.tagSource(e); ok {
-		if ts.entry {
-			return s.v, s.inBody
-		}
-		return s.tags[ts.key], true
-	}
-	if x.ctx != nil {
-		if x.entryField(e, x.ctx.condF) {
-			return s.cond, s.inBody
-		}
-		if o := objOf(x.info, e); o != nil {
-			if v, ok := x.ctx.condVals[o]; ok {
-				return v, true
-			}
-		}
-	}
-	// string(<expr>) / conditionType(<expr>)
-	if call, ok := e.(*ast.CallExpr); ok && len(call.Args) == 1 {
-		if tv, ok := x.info.Types[call.Fun]; ok && tv.IsType() {
-			if b, ok := tv.Type.Underlying().(*types.Basic); ok && b.Kind() == types.String {
-				if at, ok := x.info.TypeOf(call.Args[0]).Underlying().(*types.Basic); ok && at.Info()&types.IsString != 0 {
-					return x.evalStr(call.Args[0], s)
-				}
-			}
-		}
-	}
-	return "", false
-}
-
-func (x *c18Exec) evalInt(e ast.Expr, s *c18Scen) (int64, bool) {
-	e = ast.Unparen(e)
-	if v, ok := constInt(x.info, e); ok {
-		return v, true
-	}
-	switch t := e.(type) {
-	case *ast.CallExpr:
-		if builtinName(x.info, t) == "len" && len(t.Args) == 1 {
-			if x.recvField(t.Args[0], "Nodes") {
-				return s.n, s.n >= 0
-			}
-			if x.ctx != nil && x.entryField(t.Args[0], x.ctx.valsF) {
-				return 1, s.inBody // abstract list of one element
-			}
-		}
-	case *ast.Ident:
-		if x.idxV[objOf(x.info, t)] {
-			if s.p {
-				return 1, s.inBody
-			}
-			return 0, s.inBody
-		}
-	case *ast.BinaryExpr:
-		a, ok1 := x.evalInt(t.X, s)
-		b, ok2 := x.evalInt(t.Y, s)
-		if ok1 && ok2 {
-			switch t.Op {
-			case token.ADD:
-				return a + b, true
-			case token.SUB:
-				return a - b, true
-			}
-		}
-	}
-	return 0, false
-}
-
-// nodeID recognises <receiver>.Nodes[i].ID and returns the concrete index i.
-func (x *c18Exec) nodeID(e ast.Expr, s *c18Scen, ev *c18Eval) (int64, bool) {
-	f := fieldOf(x.info, e)
-	if f == nil || f.Name() != "ID" {
-		return 0, false
-	}
-	ix, ok := ast.Unparen(ast.Unparen(e).(*ast.SelectorExpr).X).(*ast.IndexExpr)
-	if !ok || !x.recvField(ix.X, "Nodes") {
-		return 0, false
-	}
-	i, ok := x.evalInt(ix.Index, s)
-	if !ok {
-		return 0, false
-	}
-	if i < 0 || i >= s.n {
-		ev.hazard = fmt.Sprintf("`%s` indexes %d in a node list of length %d", src(x.r.P.Fset, ix), i, s.n)
-	}
-	return i, true
-}
-
-// valueAt recognises <entry>.values[<index variable>].
-func (x *c18Exec) valueAt(e ast.Expr) bool {
-	ix, ok := ast.Unparen(e).(*ast.IndexExpr)
-	if !ok || x.ctx == nil || !x.entryField(ix.X, x.ctx.valsF) {
-		return false
-	}
-	return x.idxV[objOf(x.info, ix.Index)]
-}
-
-func c18CmpInt(op token.Token, a, b int64) (bool, bool) {
-	switch op {
-	case token.EQL:
-		return a == b, true
-	case token.NEQ:
-		return a != b, true
-	case token.LSS:
-		return a < b, true
-	case token.LEQ:
-		return a <= b, true
-	case token.GTR:
-		return a > b, true
-	case token.GEQ:
-		return a >= b, true
-	}
-	return false, false
-}
-
-// evalBool evaluates a condition on one abstract input with Go's short-circuit order.
-func (x *c18Exec) evalBool(e ast.Expr, s *c18Scen, ev *c18Eval) (bool, bool) {
-	e = ast.Unparen(e)
-	if tv, ok := x.info.Types[e]; ok && tv.Value != nil && tv.Value.Kind() == constant.Bool {
-		return constant.BoolVal(tv.Value), true
-	}
-	switch t := e.(type) {
-	case *ast.UnaryExpr:
-		if t.Op == token.NOT {
-			v, ok := x.evalBool(t.X, s, ev)
-			return !v, ok
-		}
-	case *ast.BinaryExpr:
-		switch t.Op {
-		case token.LAND, token.LOR:
-			a, ok := x.evalBool(t.X, s, ev)
-			if !ok || ev.hazard != "" {
-				return false, ok
-			}
-			if a == (t.Op == token.LOR) {
-				return a, true
-			}
-			return x.evalBool(t.Y, s, ev)
-		case token.EQL, token.NEQ, token.LSS, token.LEQ, token.GTR, token.GEQ:
-			eq := t.Op == token.EQL
-			if t.Op == token.EQL || t.Op == token.NEQ {
-				// closedness: ids of two nodes of the receiver
-				i, ok1 := x.nodeID(t.X, s, ev)
-				j, ok2 := x.nodeID(t.Y, s, ev)
-				if ok1 && ok2 {
-					switch {
-					case ev.hazard != "":
-						return false, true
-					case i == j:
-						return eq, true
-					case (i == 0 && j == s.n-1) || (j == 0 && i == s.n-1):
-						return s.closed == eq, true
-					}
-					ev.unknown = fmt.Sprintf("`%s` compares the ids of nodes %d and %d, which says nothing about the way being closed", src(x.r.P.Fset, t), i, j)
-					return false, false
-				}
-				// membership: values[index] against the value
-				for _, pr := range [][2]ast.Expr{{t.X, t.Y}, {t.Y, t.X}} {
-					if x.valueAt(pr[0]) {
-						if ts, ok := x.tagSource(pr[1]); ok && ts.entry && s.inBody {
-							if s.p {
-								ev.hazard = fmt.Sprintf("`%s` is evaluated when the search index equals len(values) (the value sorts after every list element): index out of range", src(x.r.P.Fset, pr[0]))
-								return false, true
-							}
-							return s.q == eq, true
-						}
-					}
-				}
-			}
-			if a, ok := x.evalInt(t.X, s); ok {
-				if b, ok := x.evalInt(t.Y, s); ok {
-					return c18CmpInt(t.Op, a, b)
-				}
-			}
-			if t.Op == token.EQL || t.Op == token.NEQ {
-				if a, ok := x.evalStr(t.X, s); ok {
-					if b, ok := x.evalStr(t.Y, s); ok {
-						return (a == b) == eq, true
-					}
-				}
-			}
-		}
-	}
-	if ev.unknown == "" {
-		ev.unknown = fmt.Sprintf("condition `%s` is not built from the recognised atoms (len(nodes) vs constant, first/last node id, Tags.Find(const|entry.key) vs constant, entry.polygon vs declared kind, search index vs len(values), values[index] vs value)", src(x.r.P.Fset, e))
-	}
-	return false, false
-}
-
-// scanHazards looks for out-of-range indexing in a straight-line node.
-func (x *c18Exec) scanHazards(n ast.Node, s *c18Scen, ev *c18Eval) {
-	inspectNoLit(n, func(m ast.Node) bool {
-		ix, ok := m.(*ast.IndexExpr)
-		if !ok {
-			return true
-		}
-		if x.recvField(ix.X, "Nodes") {
-			if i, ok := x.evalInt(ix.Index, s); ok && (i < 0 || i >= s.n) {
-				ev.hazard = fmt.Sprintf("`%s` indexes %d in a node list of length %d", src(x.r.P.Fset, ix), i, s.n)
-			}
-		}
-		if x.valueAt(ix) && s.inBody && s.p {
-			ev.hazard = fmt.Sprintf("`%s` is evaluated when the search index equals len(values)", src(x.r.P.Fset, ix))
-		}
-		return true
-	})
-}
-
-// run walks the CFG from block b on abstract input s until the function returns, panics,
-// reaches the head of the rule loop (next entry) or leaves the loop.
-func (x *c18Exec) run(b *cfg.Block, s *c18Scen) c18Out {
-	var out c18Out
-	seen := map[*cfg.Block]bool{}
-	first := true
-	for {
-		if !first {
-			if b == x.head && x.head != nil {
-				out.kind = "head"
-				return out
-			}
-			if b == x.done && x.done != nil && s.inBody {
-				out.kind = "break"
-				return out
-			}
-		}
-		first = false
-		if seen[b] {
-			out.kind, out.note = "unknown", "the path loops without reaching the rule loop head"
-			return out
-		}
-		seen[b] = true
-		isCond := len(b.Succs) == 2 && b.Kind != cfg.KindRangeLoop
-		for i, n := range b.Nodes {
-			ev := &c18Eval{}
-			out.pos = n.Pos()
-			if isCond && i == len(b.Nodes)-1 {
-				ce, _ := n.(ast.Expr)
-				var val, ok bool
-				if ce == nil {
-					ev.unknown = "branch node is not an expression"
-				} else if cc, isCase := x.par[ce].(*ast.CaseClause); isCase {
-					// switch-form: `switch TAG { case ce: ...` is TAG == ce; tagless switch is ce itself
-					var sw *ast.SwitchStmt
-					if blk, ok := x.par[cc].(*ast.BlockStmt); ok {
-						sw, _ = x.par[blk].(*ast.SwitchStmt)
-					}
-					switch {
-					case sw == nil:
-						ev.unknown = "case clause outside an expression switch"
-					case sw.Tag == nil:
-						val, ok = x.evalBool(ce, s, ev)
-					default:
-						a, ok1 := x.evalStr(sw.Tag, s)
-						c2, ok2 := x.evalStr(ce, s)
-						val, ok = a == c2, ok1 && ok2
-						if !ok {
-							ev.unknown = fmt.Sprintf("switch on `%s` with case `%s` is not a comparison of recognised strings", src(x.r.P.Fset, sw.Tag), src(x.r.P.Fset, ce))
-						}
-					}
-				} else {
-					val, ok = x.evalBool(ce, s, ev)
-				}
-				if ev.hazard != "" {
-					out.kind, out.note = "panic", ev.hazard
-					return out
-				}
-				if !ok {
-					out.kind, out.note = "unknown", ev.unknown
-					return out
-				}
-				out.trace = append(out.trace, fmt.Sprintf("`%s` is %v", src(x.r.P.Fset, ce), val))
-				if val {
-					b = b.Succs[0]
-				} else {
-					b = b.Succs[1]
-				}
-				goto next
-			}
-			if ret, ok := n.(*ast.ReturnStmt); ok {
-				if len(ret.Results) != 1 {
-					out.kind, out.note = "unknown", "return without exactly one result"
-					return out
-				}
-				val, ok := x.evalBool(ret.Results[0], s, ev)
-				switch {
-				case ev.hazard != "":
-					out.kind, out.note = "panic", ev.hazard
-				case !ok:
-					out.kind, out.note = "unknown", ev.unknown
-				default:
-					out.kind = fmt.Sprint(val)
-					if _, isConst := x.info.Types[ret.Results[0]]; !isConst || x.info.Types[ret.Results[0]].Value == nil {
-						out.trace = append(out.trace, fmt.Sprintf("`%s` is %v", src(x.r.P.Fset, ret.Results[0]), val))
-					}
-				}
-				return out
-			}
-			x.scanHazards(n, s, ev)
-			if ev.hazard != "" {
-				out.kind, out.note = "panic", ev.hazard
-				return out
-			}
-		}
-		switch len(b.Succs) {
-		case 0:
-			if c18IsPanicExit(x.info, b) {
-				out.kind, out.note = "panic", "explicit panic"
-			} else {
-				out.kind = "end"
-			}
-			return out
-		case 1:
-			b = b.Succs[0]
-		default:
-			out.kind, out.note = "unknown", "a loop other than the rule loop (or a select/type switch) is on the path"
-			return out
-		}
-	next:
-	}
-}
-
-// c18Strings collects every constant string mentioned in the function (scenario values).
-func (x *c18Exec) constStrings() []string {
-	m := map[string]bool{}
-	inspectNoLit(x.fd.Body, func(n ast.Node) bool {
-		if e, ok := n.(ast.Expr); ok {
-			if v, ok := constString(x.info, e); ok {
-				m[v] = true
-			}
-		}
-		return true
-	})
-	var out []string
-	for v := range m {
-		out = append(out, v)
-	}
-	sort.Strings(out)
-	return out
-}
-
-// ---------------------------------------------------------------------------
-// L3: the decision procedure of (*Way).Polygon
-
-// c18Clause accumulates the verdict of one clause over its abstract inputs.
-type c18Clause struct {
-	name  string
-	n     int
-	pos   token.Pos
-	bad   string
-	unk   string
-	proof string
-}
-
-func (cl *c18Clause) expect(s *c18Scen, got c18Out, want string, wantText string) {
-	cl.n++
-	if !cl.pos.IsValid() {
-		cl.pos = got.pos
-	}
-	if got.kind == want {
-		return
-	}
-	msg := fmt.Sprintf("on {%s} the published rules require that the function %s, but it %s", s, wantText, got.describe())
-	if got.kind == "unknown" {
-		if cl.unk == "" {
-			cl.unk, cl.pos = msg, got.pos
-		}
-		return
-	}
-	if cl.bad == "" {
-		cl.bad, cl.pos = msg, got.pos
-	}
-}
-
-func (cl *c18Clause) emit(r *core.R, fallback token.Pos) {
-	pos := cl.pos
-	if !pos.IsValid() {
-		pos = fallback
-	}
-	switch {
-	case cl.bad != "":
-		r.Bad(cl.name, pos, "%s", cl.bad)
-	case cl.unk != "":
-		r.Unknown(cl.name, pos, "%s", cl.unk)
-	case cl.n == 0:
-		r.Unknown(cl.name, pos, "no abstract input exercised this clause")
-	default:
-		r.OK(cl.name, pos, "%s (%d abstract inputs evaluated over the control-flow graph)", cl.proof, cl.n)
-	}
-}
-
-const c18Fresh = "«unlisted»"
-
-func c18L3(r *core.R) {
-	c := c18Resolve(r)
-	if c == nil {
-		return
-	}
-	fname := c.fi.Name()
-	x := c18NewExec(r, c.pk, c.fi.Decl, c)
-	if x.head == nil || x.body == nil || x.done == nil {
-		r.Anchor("rule loop of " + fname + " in the control-flow graph")
-		return
-	}
-	if len(x.multi) > 0 {
-		r.Unknown("single-assignment@"+fname, c.fi.Decl.Pos(), "variables %v hold a tag value or a search index but are assigned more than once; the evaluation needs single-assignment locals", x.multi)
-		return
-	}
-	at := func(s string) string { return s + "@" + fname }
-	vals := []string{"", "no", "yes", c18Fresh}
-	have := map[string]bool{"": true, "no": true, "yes": true, c18Fresh: true}
-	for _, v := range x.constStrings() {
-		if !have[v] {
-			have[v] = true
-			vals = append(vals, v)
-		}
-	}
-	r.Stat("cfg_blocks", len(x.g.Blocks))
-
-	// ---- prefix: from the entry to the rule loop
-	clLen := &c18Clause{name: at("precondition len(nodes) > 3"), proof: "every input with at most 3 node refs returns false without indexing an empty list, and 4 refs behave like 5"}
-	clClosed := &c18Clause{name: at("precondition closed"), proof: "every input whose first and last node ids differ returns false whatever the tags"}
-	clNo := &c18Clause{name: at("area=no"), proof: "closed, >3 refs, area=no returns false before the rule loop"}
-	clOther := &c18Clause{name: at("area=<other>"), proof: "closed, >3 refs, any non-empty area value other than no returns true before the rule loop"}
-	clAbsent := &c18Clause{name: at("area absent -> rule loop"), proof: "closed, >3 refs, no area value reaches the rule loop"}
-	entry := x.g.Blocks[0]
-	nruns := 0
-	for _, area := range vals {
-		for _, closed := range []bool{true, false} {
-			outs := map[int64]c18Out{}
-			for n := int64(0); n <= 5; n++ {
-				s := &c18Scen{n: n, closed: closed, tags: map[string]string{"area": area}}
-				o := x.run(entry, s)
-				outs[n] = o
-				nruns++
-				switch {
-				case n <= 3:
-					clLen.expect(s, o, "false", "returns false (a polygon needs more than 3 node refs)")
-				case !closed:
-					clClosed.expect(s, o, "false", "returns false (the way is not closed)")
-				case n == 4:
-					// boundary of the length test: 4 refs must be treated like 5
-				case area == "no":
-					clNo.expect(s, o, "false", "returns false (area=no is never an area)")
-				case area != "":
-					clOther.expect(s, o, "true", "returns true (a non-empty area value other than no always is an area)")
-				default:
-					clAbsent.expect(s, o, "head", "evaluates the rule table")
-				}
-			}
-			if closed && outs[4].kind != outs[5].kind {
-				s := &c18Scen{n: 4, closed: true, tags: map[string]string{"area": area}}
-				clLen.n++
-				if clLen.bad == "" {
-					clLen.bad = fmt.Sprintf("on {%s} the function %s, while with 5 node refs it %s: the length threshold is not `more than 3`", s, outs[4].describe(), outs[5].describe())
-					clLen.pos = outs[4].pos
-				}
-			}
-		}
-	}
-	for _, cl := range []*c18Clause{clLen, clClosed, clNo, clOther, clAbsent} {
-		cl.emit(r, c.fi.Decl.Pos())
-	}
-
-	// ---- one iteration of the rule loop
-	clSkip := &c18Clause{name: at("skip \"\" and \"no\""), proof: "an absent value and the value no go on to the next entry for every condition kind and search outcome"}
-	branch := map[string]*c18Clause{}
-	declared := map[string]string{}
-	for o, v := range c.condVals {
-		declared[v] = o.Name()
-	}
-	for _, kind := range []string{"all", "whitelist", "blacklist"} {
-		d := "compared as a literal"
-		if nm, ok := declared[kind]; ok {
-			d = "declared as " + nm
-		}
-		branch[kind] = &c18Clause{name: at("branch " + kind), proof: map[string]string{
-			"all":       "polygon=all (" + d + "): every value other than \"\"/no returns true",
-			"whitelist": "polygon=whitelist (" + d + "): returns true exactly when index < len(values) && values[index] == value, otherwise next entry; values[index] is never evaluated at index == len(values)",
-			"blacklist": "polygon=blacklist (" + d + "): returns true exactly when index == len(values) || values[index] != value, otherwise next entry; values[index] is never evaluated at index == len(values)",
-		}[kind]}
-	}
-	truth := map[string]map[[2]bool]string{"whitelist": {}, "blacklist": {}}
-	for _, kind := range []string{"all", "whitelist", "blacklist"} {
-		for _, v := range vals {
-			for _, p := range []bool{true, false} {
-				for _, q := range []bool{true, false} {
-					s := &c18Scen{n: 5, closed: true, tags: map[string]string{"area": ""}, inBody: true, v: v, cond: kind, p: p, q: q}
-					o := x.run(x.body, s)
-					nruns++
-					member := !p && q
-					switch {
-					case v == "" || v == "no":
-						clSkip.expect(s, o, "head", "skips the entry (absent value / value no never makes an area)")
-					case kind == "all":
-						branch[kind].expect(s, o, "true", "returns true")
-					case kind == "whitelist" && member, kind == "blacklist" && !member:
-						branch[kind].expect(s, o, "true", "returns true (value "+map[bool]string{true: "is", false: "is not"}[member]+" in the list)")
-					default:
-						branch[kind].expect(s, o, "head", "goes on to the next entry (value "+map[bool]string{true: "is", false: "is not"}[member]+" in the list)")
-					}
-					if v == c18Fresh && kind != "all" {
-						truth[kind][[2]bool{p, q}] = o.kind
-					}
-				}
-			}
-		}
-	}
-	clSkip.emit(r, c.loop.Pos())
-	for _, kind := range []string{"all", "whitelist", "blacklist"} {
-		branch[kind].emit(r, c.loop.Pos())
-	}
-	// blacklist is the exact negation of whitelist on the (index at end, element equal) truth table
-	neg := at("blacklist = NOT whitelist")
-	var rows []string
-	okNeg, decided := true, true
-	for _, pq := range [][2]bool{{true, true}, {true, false}, {false, true}, {false, false}} {
-		w, b := truth["whitelist"][pq], truth["blacklist"][pq]
-		rows = append(rows, fmt.Sprintf("end=%v,eq=%v: whitelist %s / blacklist %s", pq[0], pq[1], w, b))
-		isRes := func(k string) bool { return k == "true" || k == "head" }
-		if !isRes(w) || !isRes(b) {
-			decided = false
-		} else if w == b {
-			okNeg = false
-		}
-	}
-	switch {
-	case !decided:
-		r.Unknown(neg, c.loop.Pos(), "truth tables could not be evaluated: %s", strings.Join(rows, "; "))
-	case !okNeg:
-		r.Bad(neg, c.loop.Pos(), "the blacklist branch is not the negation of the whitelist membership test `index < len(values) && values[index] == value`: %s (true = area, head = next entry)", strings.Join(rows, "; "))
-	default:
-		r.OK(neg, c.loop.Pos(), "truth tables over (index == len(values), values[index] == value) are complementary: %s", strings.Join(rows, "; "))
-	}
-
-	// ---- after the loop
-	clAfter := &c18Clause{name: at("no entry matched -> false"), proof: "leaving the rule loop returns false"}
-	{
-		s := &c18Scen{n: 5, closed: true, tags: map[string]string{"area": ""}}
-		clAfter.expect(s, x.run(x.done, s), "false", "returns false (no rule matched)")
-		nruns++
-	}
-	clAfter.emit(r, c.loop.End())
-	r.Stat("abstract_inputs_evaluated", nruns)
-
-	// ---- reads: receiver only through len/index of Nodes and Tags.Find(const | entry.key)
-	c18Reads(r, x, at("tags and nodes read-only, Find(const|entry key) only"))
-
-	// ---- declared condition values never change
-	cv := "condition values immutable@" + c.condF.Type().String()
-	var names []string
-	bad := ""
-	var badPos token.Pos
-	for o := range c.condVals {
-		names = append(names, fmt.Sprintf("%s=%q", o.Name(), c.condVals[o]))
-		if _, isVar := o.(*types.Var); isVar {
-			if w := c18Writes(c.pk, o, nil); len(w) > 0 && bad == "" {
-				bad, badPos = o.Name(), w[0]
-			}
-		}
-	}
-	sort.Strings(names)
-	switch {
-	case bad != "":
-		r.Bad(cv, badPos, "the condition value %s is a variable written at %s: the branch it selects no longer corresponds to the kind named in the table", bad, r.P.Rel(badPos))
-	case len(names) == 0:
-		r.OKTrivial(cv, c.fi.Decl.Pos(), "no named condition values are declared; branches compare against literals")
-	default:
-		r.OK(cv, c.fi.Decl.Pos(), "declared values %v are constants or package variables that are never assigned or address-taken", names)
-	}
-}
-
-// c18Reads checks that the function touches its receiver only by reading Nodes (len, index) and by
-// calling Tags.Find with a constant or the entry's key: the result is then a function of the tag set.
-func c18Reads(r *core.R, x *c18Exec, cn string) {
-	info := x.info
-	nuse := 0
-	var bad string
-	var badPos token.Pos
-	note := func(n ast.Node, why string) {
-		if bad == "" {
-			bad, badPos = fmt.Sprintf("`%s`: %s", src(r.P.Fset, n), why), n.Pos()
-		}
-	}
-	inspectNoLit(x.fd.Body, func(n ast.Node) bool {
-		id, ok := n.(*ast.Ident)
-		if !ok || info.Uses[id] != x.recv {
-			return true
-		}
-		nuse++
-		sel, ok := x.par[id].(*ast.SelectorExpr)
-		if !ok || sel.X != id {
-			note(x.par[id], "the receiver is used as a whole")
-			return true
-		}
-		up := x.par[sel]
-		for {
-			if p, ok := up.(*ast.ParenExpr); ok {
-				up = x.par[p]
-				continue
-			}
-			break
-		}
-		switch {
-		case x.recvField(sel, "Nodes"):
-			switch p := up.(type) {
-			case *ast.CallExpr:
-				if builtinName(info, p) != "len" {
-					note(p, "the node list is passed to a call")
-				}
-			case *ast.IndexExpr:
-				if as, ok := enclosing(x.par, p, func(m ast.Node) bool { _, ok := m.(*ast.AssignStmt); return ok }).(*ast.AssignStmt); ok {
-					for _, l := range as.Lhs {
-						if rootObj(info, l) == x.recv {
-							note(as, "the node list is written")
-						}
-					}
-				}
-			default:
-				note(up, "the node list is used other than through len() and indexing")
-			}
-		case x.recvField(sel, "Tags"):
-			msel, ok := up.(*ast.SelectorExpr)
-			call, ok2 := x.par[msel].(*ast.CallExpr)
-			if !ok || !ok2 || call.Fun != msel {
-				note(up, "tags are read other than through Tags.Find; the answer may depend on tag order or on unrelated tags")
-				return true
-			}
-			if _, ok := x.findCall(call); !ok {
-				note(call, "tags are read through something other than Tags.Find(<constant> | <entry>.key)")
-			}
-		default:
-			note(sel, "receiver field other than Nodes and Tags takes part in the classification")
-		}
-		return true
-	})
-	switch {
-	case bad != "":
-		r.Bad(cn, badPos, "%s", bad)
-	case nuse == 0:
-		r.Unknown(cn, x.fd.Pos(), "the receiver is never used")
-	default:
-		r.OK(cn, x.fd.Pos(), "all %d uses of the receiver are len()/index reads of Nodes or Tags.Find(<constant> | <entry>.key); Find depends only on the key->value mapping, so tag order and unrelated tags cannot matter", nuse)
-	}
-}
-
-// ---------------------------------------------------------------------------
-// L4: (*Relation).Polygon
-
-func c18L4(r *core.R) {
-	pk := r.P.Pkg("")
-	fi := findFunc(pk, "(*Relation).Polygon")
-	if fi == nil || fi.Decl.Body == nil {
-		r.Anchor("(*Relation).Polygon")
-		return
-	}
-	tab, err := c18LoadTable()
-	if err != nil {
-		r.Anchor("tables/polygon-features.json: " + err.Error())
-		return
-	}
-	fname := fi.Name()
-	x := c18NewExec(r, pk, fi.Decl, nil)
-	if len(x.multi) > 0 {
-		r.Unknown("single-assignment@"+fname, fi.Decl.Pos(), "variables %v hold a tag value but are assigned more than once", x.multi)
-		return
-	}
-	accept := map[string]bool{}
-	for _, t := range tab.RelationTypes {
-		accept[t] = true
-	}
-	vals := []string{"", "no", "yes", "route", "Multipolygon", "multipolygon ", c18Fresh}
-	have := map[string]bool{}
-	for _, v := range vals {
-		have[v] = true
-	}
-	for _, v := range x.constStrings() {
-		if !have[v] && !accept[v] {
-			have[v] = true
-			vals = append(vals, v)
-		}
-	}
-	entry := x.g.Blocks[0]
-	for _, t := range tab.RelationTypes {
-		cl := &c18Clause{name: "type=" + t + "@" + fname, proof: "a relation with type=" + t + " is an area"}
-		s := &c18Scen{n: -1, tags: map[string]string{"type": t}}
-		cl.expect(s, x.run(entry, s), "true", "returns true")
-		cl.emit(r, fi.Decl.Pos())
-	}
-	cl := &c18Clause{name: "others rejected@" + fname, proof: fmt.Sprintf("absent type and every other type value (%d probes, including each string constant of the function) return false", len(vals))}
-	for _, v := range vals {
-		s := &c18Scen{n: -1, tags: map[string]string{"type": v}}
-		cl.expect(s, x.run(entry, s), "false", "returns false (only multipolygon and boundary relations are areas)")
-	}
-	cl.emit(r, fi.Decl.Pos())
-	c18ReadsRel(r, x, "reads only Tags.Find(\"type\")@"+fname)
-}
-
-// c18ReadsRel: the relation classification reads nothing but Tags.Find("type").
-func c18ReadsRel(r *core.R, x *c18Exec, cn string) {
-	nuse, nfind := 0, 0
-	var bad string
-	var badPos token.Pos
-	inspectNoLit(x.fd.Body, func(n ast.Node) bool {
-		id, ok := n.(*ast.Ident)
-		if !ok || x.info.Uses[id] != x.recv {
-			return true
-		}
-		nuse++
-		sel, _ := x.par[id].(*ast.SelectorExpr)
-		var call *ast.CallExpr
-		if sel != nil && x.recvField(sel, "Tags") {
-			if msel, ok := x.par[sel].(*ast.SelectorExpr); ok {
-				if c2, ok := x.par[msel].(*ast.CallExpr); ok && c2.Fun == msel {
-					call = c2
-				}
-			}
-		}
-		if call != nil {
-			if ts, ok := x.findCall(call); ok && !ts.entry && ts.key == "type" {
-				nfind++
-				return true
-			}
-		}
-		if bad == "" {
-			bad, badPos = fmt.Sprintf("`%s` reads the relation other than through Tags.Find(\"type\")", src(x.r.P.Fset, x.par[id])), id.Pos()
-		}
-		return true
-	})
-	switch {
-	case bad != "":
-		r.Bad(cn, badPos, "%s: the answer no longer depends on the type tag alone", bad)
-	case nfind == 0:
-		r.Bad(cn, x.fd.Pos(), "the function never reads the type tag")
-	default:
-		r.OK(cn, x.fd.Pos(), "all %d uses of the receiver are Tags.Find(\"type\")", nuse)
-	}
 }
